@@ -625,5 +625,5 @@ def narrowing_casts(an, rep):
                 if info["base_key"] in ("TryInto::try_into", "TryFrom::try_from"):
                     checked += 1
     R.count("narrowing_casts", n)
-    R.floor("checked length conversions (try_into/try_from) in encode-reachable code", checked, 8)
+    R.floor("checked length conversions (try_into/try_from) in encode-reachable code", checked, 4)
     return R
